@@ -35,6 +35,10 @@ class Model(SOCModel):
         self.aux_bounds = []
         self.aux_ipc = []
         self.cvx_constr = []
+        self.ip_constr = []
+        self.det_constr = []
+        self.pupdate = True
+        self.dupdate = True
 
     def st(self, constr):
 
